@@ -4,8 +4,10 @@
         start = ind.start if ind.start is not None else 0
         ...
     else:
-        start = ind.start or self.shape[i] - 1      # <- Python truthiness of `or` (finding D4)
-        ...
+        start = ind.start if ind.start is not None else self.shape[i] - 1
+        ...                                  # (before fix 97946a9: `ind.start or self.shape[i] - 1`,
+                                             #  finding D4 — the translator models `or` by truthiness,
+                                             #  so that form breaks Proofs/DOKP.v dok_bounds_clipped)
 
 translated branch by branch (the translator's selector addresses the body / the orelse of the
 `if` whose test unparses to exactly `step > 0`; if that test is edited the selector no longer
